@@ -6,7 +6,7 @@ from ..engine import rule
 from ..flow import PRUNE, Violation, explore, is_none_const, path_ends, \
     path_is, raising_node, store_value
 from ..locks import POOL_WRITE, held_locks, step_held
-from ..model import dotted
+from ..model import dotted, walk_local
 from ..twopc import BLOBSTORAGE, DS, FS, MS, STORAGES, commit_lock_ops, \
     identity_guard
 
@@ -753,3 +753,62 @@ def r7(R):
         for v in vs:
             R.violation(v.node, v.message, g, v.path)
     R.require(n >= 2, 'the undo manager\'s release sites vanished')
+
+
+# ------------------------------------------------------------------ C05.R8
+@rule('C05.R8', 'the undo data manager talks to its storage about the '
+      'transaction object the storage was BEGUN with (what '
+      '`transaction.data(self)` gives), in every step alike -- the storage '
+      'silently ignores an abort for a transaction it does not know',
+      props=['C06'], min_instances=4)
+def r8(R):
+    cls = R.prog.cls('ZODB.DB.TransactionalUndo')
+    n = 0
+    for name in ('commit', 'tpc_vote', 'tpc_finish', 'tpc_abort'):
+        f = R.method(cls, name)
+        params = [p for p in f.params if p != 'self']
+        if not params:
+            continue
+        txn = params[0]
+        rebound = any(isinstance(a, ast.Assign) and any(
+            isinstance(t, ast.Name) and t.id == txn for t in a.targets)
+            for a in walk_local(f.node))
+        derived = {t.id for a in walk_local(f.node)
+                   if isinstance(a, ast.Assign) and isinstance(
+                       a.value, ast.Call) and isinstance(
+                           a.value.func, ast.Attribute) and
+                   a.value.func.attr == 'data'
+                   for t in a.targets if isinstance(t, ast.Name)}
+        aliases = {t.id for a in walk_local(f.node)
+                   if isinstance(a, ast.Assign) and dotted(a.value) == (
+                       'self', '_storage')
+                   for t in a.targets if isinstance(t, ast.Name)}
+        for c in walk_local(f.node):
+            if not (isinstance(c, ast.Call) and isinstance(
+                    c.func, ast.Attribute) and (dotted(c.func.value) == (
+                        'self', '_storage') or (isinstance(
+                            c.func.value, ast.Name) and
+                        c.func.value.id in aliases)) and c.func.attr in (
+                            'tpc_vote', 'tpc_finish', 'tpc_abort', 'undo',
+                            'tpc_begin')):
+                continue
+            n += 1
+            R.instance('TransactionalUndo.%s: %s' % (
+                name, ' '.join(ast.unparse(c).split())[:50]))
+            for a in c.args:
+                raw = isinstance(a, ast.Name) and a.id == txn and \
+                    txn not in derived
+                if raw:
+                    R.violation(
+                        (f.module.relpath, f.qualname,
+                         ' '.join(ast.unparse(c).split()), c.lineno),
+                        'TransactionalUndo.%s hands the transaction '
+                        'manager\'s transaction itself to the storage, not '
+                        'the object the storage was begun with: the '
+                        'storage does not know it and ignores the call -- '
+                        'after a failed undo the storage stays in the '
+                        'transaction and keeps the commit lock; every '
+                        'later commit blocks' % name,
+                        key='storage called with the raw transaction')
+    R.require(n >= 4, 'expected the undo data manager to call its storage '
+              'in commit, vote, finish and abort; found %d call(s)' % n)
